@@ -51,7 +51,7 @@ class C15(vlib.Check):
             "workers, shuffled input lists, 1-2 inputs replaced by unreadable files; databases compared as multisets of named rows "
             "with the model's collection of the serial per-input results; interruption: the batch runs in a subprocess whose save "
             "is made to exit after the k-th completed output, for every k, then a plain re-run and an overwrite re-run, comparing "
-            "SHA-256 of pre-existing outputs; and in-process resumption after some output files, then the whole output directory, were removed; the output files of save runs of BOTH batch routes (fingerprint.generate.run over SDF files, "
+            "SHA-256 of pre-existing outputs; an input replaced between two batches of one process by content of the same size and time stamp; and in-process resumption after some output files, then the whole output directory, were removed; the output files of save runs of BOTH batch routes (fingerprint.generate.run over SDF files, "
             "conformer.generate.run over a SMILES file) with pre-existing valid / stale outputs, overwrite on and off, a failing input, "
             "three modes, compared with the model's file-system fold (driver op batch.files). Non-trivial: >= 2 good inputs and a non-serial mode or a bad input or an interruption.")
     trusted_base = ["python_utilities.Parallelizer / concurrent.futures; the OS (files, processes, threads)"]
@@ -138,6 +138,14 @@ class C15(vlib.Check):
                    # "rotated": the title inside file i is the file stem of file i+1 (renamed / renumbered files)
                    "names": ["rotated", "proto", "mixed", "plain"][k % 4],
                    "ks": list(range(0, nfiles + 1)) if self.tier == "thorough" else sorted(rng.sample(range(0, nfiles), 2))}
+        # an input file replaced between two batches of ONE process by other content of the same size and time stamp (restored from a
+        # backup with its times kept, rsync -t, a coarse file-system clock): the second batch answers for the file as it is now
+        import random
+        r2 = random.Random(self.seed * 32452843 + 3)        # (own stream)
+        for k in range(3 if self.tier == "quick" else 20):
+            self.count("input-replaced-same-size-and-mtime")
+            yield {"t": "replaced", "ref": r2.choice([r for r in refs if sdf_domain(r)]), "scale": r2.choice([1.25, 0.8, -1.0]),
+                   "modes": [("serial", 1), ("threads", 2), ("processes", 2)][k % 3], "first_mode": [("serial", 1), ("threads", 2)][k % 2]}
 
     # ------------------------------------------------------------------
     def _inputs(self, case, d):
@@ -339,7 +347,62 @@ class C15(vlib.Check):
         return None
 
     # ------------------------------------------------------------------ property
+    def _prop_replaced(self, case):
+        from rdkit import Chem
+        from rdkit.Geometry import Point3D
+        from e3fp.conformer.util import mol_from_sdf
+        o = {"bits": 1024, "level": 3, "first": 3, "counts": False}
+        d = tempfile.mkdtemp(prefix="r_", dir=self.tmp())
+        try:
+            src = MG.load_ref(case["ref"])
+            m1 = Chem.Mol(src)
+            m1.SetProp("_Name", "molA")
+            m2 = Chem.Mol(m1)
+            for c in m2.GetConformers():
+                for i in range(c.GetNumAtoms()):
+                    q = c.GetAtomPosition(i)
+                    c.SetAtomPosition(i, Point3D(q.x * case["scale"], q.y * abs(case["scale"]), q.z * abs(case["scale"])))
+            os.makedirs(os.path.join(d, "in"))
+            P, tmp = os.path.join(d, "in", "molA.sdf"), os.path.join(d, "molA_new.sdf")
+            mol_to_sdf(m1, P)
+            mol_to_sdf(m2, tmp)
+            if os.path.getsize(P) != os.path.getsize(tmp) or open(P, "rb").read() == open(tmp, "rb").read():
+                self.count("input-replaced:sizes-differ-skipped")
+                return None
+            base = os.path.join(d, "out_")
+
+            def outputs():
+                odir = base + str(o["level"])
+                return sorted((str(x.name), tuple(dump_fp(x)["idx"])) for f in sorted(os.listdir(odir)) for x in fpm.loadz(os.path.join(odir, f))) if os.path.isdir(odir) else []
+
+            def direct():
+                r = FG.fprints_dict_from_mol(mol_from_sdf(P), bits=o["bits"], first=o["first"], level=o["level"], counts=o["counts"])
+                return sorted((str(x.name), tuple(dump_fp(x)["idx"])) for x in r[o["level"]])
+            self._run([P], o, case["first_mode"][0], case["first_mode"][1], out_dir_base=base)
+            if outputs() != direct():
+                return None          # (the plain case belongs to the cases above)
+            st = os.stat(P)
+            os.replace(tmp, P)
+            os.utime(P, ns=(st.st_atime_ns, st.st_mtime_ns))
+            want = direct()
+            db = os.path.join(d, "second.fpz")
+            self._run([P], o, case["modes"][0], case["modes"][1], out_dir_base=base, overwrite=True, db_file=db)
+            got = outputs()
+            rows = db_rows(db)
+            got_db = None if rows is None else sorted((r[0], tuple(r[1])) for r in rows)
+            if got != want or got_db != want:
+                return {"key": "batch-answers-for-earlier-file-content:%s" % case["modes"][0],
+                        "what": "an input replaced (same size, same modification time, coordinates x %s) between two batches of one process: the second batch (%s, overwrite) wrote %s fingerprints equal to the file's current content in its outputs and %s in the database, of %d" % (
+                            case["scale"], case["modes"][0], sum(1 for x in got if x in want), "none" if got_db is None else sum(1 for x in got_db if x in want), len(want))}
+        except Exception as e:  # noqa: BLE001
+            return {"key": "batch-raises:replaced:" + type(e).__name__, "what": "batch over a replaced input raised %r" % e}
+        finally:
+            shutil.rmtree(d, ignore_errors=True)
+        return None
+
     def prop(self, case):
+        if case["t"] == "replaced":
+            return self._prop_replaced(case)
         if case["t"] == "confcrash":
             r = attempt(lambda: self._confcrash(case))
             if "err" in r:
